@@ -318,6 +318,18 @@ func (g *vfGen) genC09() {
 	for _, w := range []string{"[{]", `{"a":[}`, "[", "{", " [", "[[", `{"a":`, `[1,]`, `[01]`, `[1.e5]`, `[,]`, `{,}`, `[1 2]`, `{"a" 1}`} {
 		g.emit(vfOp("jany", []byte(w)))
 	}
+	// every partial escape followed by one more byte (good or bad), in value, key and nested positions; judged whole
+	// and as a cut header (limit = length): a bad byte after an incomplete escape is not a viable prefix
+	for _, esc := range []string{"\\", "\\u", "\\u1", "\\u1a", "\\u1aF", "\\u1aF0", "\\n", "\\x"} {
+		for _, last := range []string{"", "x", "\"", "\\", "}", "]", " ", "g", "0", "f", ",", "\n", "\xc3"} {
+			for _, ctx := range []string{"[\"%s", "{\"%s", "{\"k\":\"%s", "[1,\"%s", "[[\"ab%s", " [\"%s"} {
+				d := []byte(fmt.Sprintf(ctx, esc+last))
+				g.emit(vfOp("jany", d))
+				g.emit(vfOp("walk", d, len(d)))
+				g.emit(vfOp("walk", d, 0))
+			}
+		}
+	}
 	// a second small alphabet: bytes >= 0x80 (UTF-8 lead and continuation bytes, NEL, NBSP pieces) and the blanks
 	// that Unicode-aware trimming would remove, around quotes and brackets
 	alpha2 := []byte{'[', ']', '"', ',', '1', ' ', 0xC3, 0xE2, 0xF0, 0xA0, 0x85, 0x0C, 0xC2}
